@@ -646,6 +646,9 @@ def unconditional_delegations(facts, fams=None):
             continue
         key0 = "%s::%s(%d)" % (short(fn["rect"]), fn["name"], len(fn.get("params", [])))
         if key0 not in sp:
+            # overload families are listed with their parameter types
+            key0 = "%s::%s(%s)" % (short(fn["rect"]), fn["name"], ",".join((p.get("t") or "").replace("const ", "").replace(" &", "").replace("std::basic_string<char>", "string") for p in fn.get("params", [])))
+        if key0 not in sp:
             continue
         for want in sp[key0]:
             fld, cname = want.split(".")
